@@ -407,6 +407,10 @@ def op_spec(opname):
             sx.domain(sym.Not(sym.eq(lb, 0)))
             return INT(sym.truncdiv(la, lb) if opname == "truncdiv" else sym.truncrem(la, lb))
         if is_kind(a, Unsigned) or is_kind(a, Signed):
+            if (is_kind(b, Unsigned) or is_kind(b, Signed)) and is_kind(a, Unsigned) != is_kind(b, Unsigned):
+                # Unsigned with Signed: neither operand's method knows the other kind (`%` and `*` raise TypeError for the
+                # pair); the function must REJECT -- NotImplemented is not a value of any type
+                sx.reject()
             r = sem.divop(sx, a, b, opname)
             if r is NotImplemented:
                 sx.unspecified()
@@ -426,6 +430,8 @@ for opname in ("truncdiv", "rem"):
     con.cases.append(Case("int-int", [PyInt("a", None, None, *big), PyInt("b", None, None, -(2**60), 2**60)], spec))
     con.cases.append(Case("u-u", [UShape("w1", "a"), UShape("w2", "b")], spec))
     con.cases.append(Case("s-s", [SShape("w1", "a"), SShape("w2", "b")], spec))
+    con.cases.append(Case("u-s", [UShape("w1", "a"), SShape("w2", "b")], spec))
+    con.cases.append(Case("s-u", [SShape("w1", "a"), UShape("w2", "b")], spec))
     con.cases.append(Case("u-int", [UShape("w1", "a"), PyInt("k")], spec))
     con.cases.append(Case("s-int", [SShape("w1", "a"), PyInt("k")], spec))
     con.cases.append(Case("int-u", [PyInt("k"), UShape("w1", "a")], spec))
